@@ -15,7 +15,7 @@ ID = "C11"
 LEVEL = "exploration"
 RULE = (
     "history = sequence of operations over {set_config(c0..c7), derive_comments(c), derive_auth_blocks(c, ecc|cust), append / insert-at-0 / insert-in-middle "
-    "of a firmware component with or without TYPE tag, write+read back (replacing the object), foreign comment edit}; ALL sequences up to length 4 (quick) / 5 "
+    "of a firmware component with or without TYPE tag, write+read back (replacing the object), foreign comment edit, write-and-check keeping the same object}; ALL sequences up to length 4 (quick) / 5 "
     "(thorough) over a reduced 10-letter alphabet plus seeded random sequences of length 5..25 over the full alphabet; the model is compared with the real "
     "objects after every operation. distinct = digest of the operation sequence; non-trivial = contains at least one set_config or derive operation"
 )
@@ -166,6 +166,11 @@ class Runner:
                 self.m.comments.pop("FirmwareId", None)
         elif kind == "writeread":
             self.writeread()
+        elif kind == "writecheck":
+            keep = self.obj
+            self.writeread()  # what was written must read back as the model state (compare() runs on the parsed copy)
+            self.written_copy = self.obj
+            self.obj = keep
         else:
             raise ValueError(op)
 
@@ -259,10 +264,10 @@ class Runner:
         return None, None
 
 
-ALPHA_SMALL = [("set", 0), ("set", 1), ("comments", 0), ("comments", 3), ("auth", 0, False), ("auth", 3, True), ("append", 3), ("insert0", 0), ("writeread",), ("comment", "set")]
+ALPHA_SMALL = [("set", 0), ("set", 1), ("comments", 0), ("comments", 3), ("auth", 0, False), ("auth", 3, True), ("append", 3), ("insert0", 0), ("writeread",), ("writecheck",)]
 ALPHA_FULL = (
     [("set", i) for i in range(8)] + [("comments", i) for i in range(8)] + [("auth", i, c) for i in range(8) for c in (False, True)]
-    + [("append", t) for t in (0, 1, 2, 3)] + [("insert0", t) for t in (0, 1, 3)] + [("insertmid", t) for t in (0, 2)] + [("writeread",), ("comment", "set"), ("comment", "del")]
+    + [("append", t) for t in (0, 1, 2, 3)] + [("insert0", t) for t in (0, 1, 3)] + [("insertmid", t) for t in (0, 2)] + [("writeread",), ("writecheck",), ("writecheck",), ("comment", "set"), ("comment", "del")]
 )
 
 
@@ -291,6 +296,17 @@ def run_sequence(ns, ctx, seq):
         except Exception as e:
             ctx.violation("operation_raises:" + op[0], {"step": i, "op": op, "exc": fmt_exc(e)}, rp)
             return
+        if op[0] == "writecheck":
+            # compare the parsed copy of what was written, then continue with the original object
+            keep = r.obj
+            r.obj = r.written_copy
+            saved_blocks = dict(r.m.blocks)
+            # an ECC block addressed to the published key comes back as pass-through with the same tag: same model view
+            what, detail = r.compare(op)
+            r.obj = keep
+            if what:
+                ctx.violation("written_file_does_not_reflect_current_state:" + what, dict(detail, step=i, op=op, prefix=[list(o) for o in seq[: i + 1]]), rp)
+                return
         what, detail = r.compare(op)
         ctx.mon("lockstep_compare")
         if what:
@@ -306,7 +322,7 @@ def plan(tier, seed):
 
 
 def mandatory_bins(tier):
-    return ["op_set", "op_comments", "op_auth", "op_append", "op_insert0", "op_insertmid", "op_writeread", "op_comment", "op_writeread_bec2", "op_writeread_bf3",
+    return ["op_set", "op_comments", "op_auth", "op_append", "op_insert0", "op_insertmid", "op_writeread", "op_writecheck", "op_comment", "op_writeread_bec2", "op_writeread_bf3",
             "typeless_component_before_configuration", "typeless_component_after_configuration", "two_different_configurations_in_a_row", "derive_after_derive_other_mode", "all_sequences_up_to_bound"]
 
 
